@@ -177,6 +177,18 @@ def call_lib(I, name, args, kwargs, node):
         def dig(I_, args, kw):
             return Const(h.digest()) if state["known"] else Top("digest of unknown data")
         return Obj("Hash", OrderedDict(update=Fn("py", impl=upd, name="update"), hexdigest=Fn("py", impl=hexd, name="hexdigest"), digest=Fn("py", impl=dig, name="digest")))
+    if name == "itertools.product":
+        import itertools
+        rep = kwargs.get("repeat", Const(1))
+        if not (isinstance(rep, Const) and isinstance(rep.v, int)):
+            return Top("itertools.product with unknown repeat")
+        pools = [I.iterate(x, node) for x in a] * rep.v
+        if sum(len(p_) for p_ in pools) > 4000:
+            return Top("itertools.product too large to unfold")
+        return ListLit([TupS(list(t)) for t in itertools.product(*pools)])
+    if name in ("itertools.chain", "itertools.chain.from_iterable"):
+        seqs = a if name == "itertools.chain" else I.iterate(a[0], node)
+        return ListLit([x for s_ in seqs for x in I.iterate(s_, node)])
     if name == "itertools.accumulate":
         seq = a[0] if a else None
         if isinstance(seq, (ListLit, TupS)) and all(isinstance(x, Const) and isinstance(x.v, (int, float)) for x in seq.elts) and len(a) == 1 \
